@@ -417,21 +417,43 @@ def docs_mechanism(chk, dprog, cfg):
 
 
 def clean_type_string(chk, dprog, cfg):
-    chk.rule("R9.3", "clean_type_string only rewrites whitespace: in every str::replace(a, b) the two constants are equal after deleting spaces")
+    chk.rule("R9.3", "clean_type_string only rewrites whitespace: the only string-transforming operation it applies is str::replace(a, b) with constant pairs "
+             "(written in place or taken from a constant table) that are equal after deleting spaces")
     b = dprog.body(dprog.fn("scale_info_derive::clean_type_string"))
     n = 0
-    for bb, t in b.calls():
-        nm = b.callee_name(t)
-        last = nm.split("::")[-1]
-        if last == "replace" and "str" in nm:
-            a1, a2 = unref(b.operand_term(t["args"][1])), unref(b.operand_term(t["args"][2]))
-            n += 1
-            ok = a1[0] == "str" and a2[0] == "str" and a1[1].replace(" ", "") == a2[1].replace(" ", "")
-            chk.expect(ok, "R9.3", "replace:%r" % (a1[1] if a1[0] == "str" else "?"), b.where(bb), "replace(%s, %s)" % (path_str(a1), path_str(a2)), cfg)
-        elif last in ("deref", "as_str", "borrow") or "Deref" in nm:
-            continue
-        else:
-            chk.unrecognised("R9.3", "call:" + last, b.where(bb), "clean_type_string calls %s" % nm, cfg)
+    NEUTRAL = {"deref", "as_str", "borrow", "to_string", "to_owned", "into", "from", "clone", "as_ref", "new", "iter", "into_iter", "fold", "for_each", "next",
+               "call_once", "call_mut", "call", "drop", "as_bytes", "len", "is_empty"}
+    tables = []
+    for p in cd.closure_tree(dprog, b.path):
+        cb = dprog.body(p)
+        for bb, t in cb.calls():
+            for a in t["args"]:
+                for x in mir.walk(cb.operand_term(a)):
+                    if x[0] == "strs" and x not in tables:
+                        tables.append(x)
+    for p in cd.closure_tree(dprog, b.path):
+        cb = dprog.body(p)
+        for bb, t in cb.calls():
+            nm = cb.callee_name(t)
+            last = nm.split("::")[-1]
+            if last == "replace" and "str" in nm:
+                a1, a2 = unref(cb.operand_term(t["args"][1])), unref(cb.operand_term(t["args"][2]))
+                if a1[0] == "str" and a2[0] == "str":
+                    pairs = [(a1[1], a2[1])]
+                elif a1[0] == "field" and a2[0] == "field" and (a1[2], a2[2]) == (0, 1) and a1[1] == a2[1] and len(tables) == 1 and len(tables[0][1]) % 2 == 0:
+                    # replace(item.0, item.1) with the items of the one constant table of pairs
+                    tb = list(tables[0][1])
+                    pairs = list(zip(tb[0::2], tb[1::2]))
+                else:
+                    chk.unrecognised("R9.3", "replace:non-constant", cb.where(bb), "replace(%s, %s): the pair is not a constant" % (path_str(a1)[:40], path_str(a2)[:40]), cfg)
+                    continue
+                for x, y in pairs:
+                    n += 1
+                    chk.expect(x.replace(" ", "") == y.replace(" ", ""), "R9.3", "replace:%r" % x, cb.where(bb), "replace(%r, %r)" % (x, y), cfg)
+            elif last in NEUTRAL or "Deref" in nm or "closure" in nm:
+                continue
+            elif ("str" in nm or "string" in nm.lower()) and not nm.startswith("core::iter") and not nm.startswith("core::slice"):
+                chk.unrecognised("R9.3", "call:" + last, cb.where(bb), "clean_type_string applies %s to the type string" % nm, cfg)
     chk.floor("R9.3", n, 15, "whitespace rewriting rules in clean_type_string: 15")
 
 
